@@ -910,6 +910,25 @@ pub fn c11(tier: Tier) -> i32 {
             },
             TextVariance::Variant(_) => bump(c, "verdict_variant", 1),
         }
+        // the owned pattern is a pattern too: if it answers differently, it is checked as well
+        let owned = g.clone().into_owned();
+        let t1 = owned.text();
+        if t1 != t0 {
+            bump(c, "owned_answers_differ", 1);
+            if let TextVariance::Invariant(t) = &t1 {
+                if let Ok(dfa) = model::dfa_of_glob(&owned) {
+                    c11_check_program(&rep, c, &format!("`{}`.into_owned()", e.text), &[e.text.as_str()], class_lists_separator(&e.ast), &dfa, t, &|p| owned.is_match(p));
+                }
+                if cased {
+                    rep.alarm(Alarm {
+                        class: None,
+                        key: format!("cased owned {}", e.text),
+                        msg: format!("`{}`.into_owned() has a cased literal under (?i) but reports invariant text {:?}", e.text, t),
+                        case: json!({"kind": "text-cased", "patterns": [e.text]}),
+                    });
+                }
+            }
+        }
     });
     for_each_any(&rep, tier, &|combo, any, c| {
         if let TextVariance::Invariant(t) = any.text() {
@@ -1051,6 +1070,27 @@ pub fn c12(tier: Tier) -> i32 {
                 msg: format!("glob `{}` reports has_root()=Sometimes", e.text),
                 case: json!({"kind": "root-sometimes", "patterns": [e.text]}),
             });
+        }
+        // the owned glob must answer the same questions the same way
+        {
+            let owned = g.clone().into_owned();
+            if owned.has_root() != root || owned.has_semantic_literals() != g.has_semantic_literals() {
+                bump(c, "owned_answers_differ", 1);
+                let expected = has_semantic_component(&e.ast);
+                if owned.has_root() == When::Sometimes || (expected && !owned.has_semantic_literals()) {
+                    rep.alarm(Alarm {
+                        class: None,
+                        key: format!("owned {}", e.text),
+                        msg: format!("`{}`.into_owned(): has_root() = {:?}, has_semantic_literals() = {} (expected {})", e.text, owned.has_root(), owned.has_semantic_literals(), expected),
+                        case: json!({"kind": "semantic", "patterns": [e.text]}),
+                    });
+                }
+                if owned.has_root() == When::Always && root != When::Always {
+                    if let Ok(dfa) = model::dfa_of_glob(&owned) {
+                        c12_check_root(&rep, c, &format!("`{}`.into_owned()", e.text), &[e.text.as_str()], None, &dfa, &|p| owned.is_match(p));
+                    }
+                }
+            }
         }
         // semantic literals
         let expected = has_semantic_component(&e.ast);
